@@ -26,6 +26,16 @@ _ALL = {'\\A', 'forall'}
 _EX = {'\\E', 'exists'}
 
 
+class _Opaque:
+    def __init__(self, what):
+        self.what = what
+
+    def _no(self, *a, **k):
+        raise _eng.OutOfReach(
+            f'structural attribute `{self.what}` of a SpecBDD node')
+    __str__ = __repr__ = __eq__ = __hash__ = __bool__ = _no
+
+
 class SNode:
     """Reference to a Boolean function held in a `SpecBDD`."""
 
@@ -124,7 +134,9 @@ class SNode:
 
     @property
     def var(self):
-        raise _eng.OutOfReach('structural attribute `var` of a SpecBDD node')
+        # `omega` only tests for the presence of this attribute (duck typing
+        # of BDD nodes); its value is structural and not available here
+        return _Opaque('var')
 
     @property
     def low(self):
